@@ -28,6 +28,24 @@ CLAIMS.update({
    note="trusted: proto column of reference/opcodes.json", ref="4/C05"),
 })
 
+CLAIMS.update({
+ "C06": dict(cat="proof", tech="who-may-emit rule + ordering and linear-term rule on the interpreted generate_internal",
+   text="FRAME's byte is written only by the in-place patch of generate_internal; can_emit(Frame) is false on every leaf and no emission leaf (safe or unsafe rewrite), collapse step or header decodes to FRAME; the 9 reserved bytes exist only for protocols 4/5 directly after PROTO; the patched size is, as a linear term over the opaque appended lengths, (output length after STOP) - (position + 9), written as 8 LE bytes at position+1, with no write after it; every truncation during the body targets the opcode boundary recorded by create_snapshot, which only emit_and_process calls.",
+   note="emit_and_process / cleanup_for_stop are stubbed as append-only in this rule; that they are append-only is what R06.d/R04.c check on their own leaves", ref="4/C06"),
+ "C08": dict(cat="other", tech="must-pass-through / non-interference on the interpreted generate_internal from an unknown entry state + field coverage of reset()",
+   text="generate_internal is interpreted from a completely unknown scratch state: every use of output, stack, memo and proto_emitted is preceded by an event clearing it; reset() clears every scratch field; configuration fields are written by no generation, emission, collapse or reset leaf; entry points call generate_internal exactly once and return a copy of the whole buffer; no mutable static/thread-local is reachable; the Python binding forwards generate_from_bytes to the same inner generator.",
+   note="field roles are fixed in analysis/absgen.py (an unknown new field fails closed)", ref="4/C08"),
+ "C10": dict(cat="proof", tech="guard extraction + who-may-emit over all emission leaves (safe and unsafe) + default/writer rules",
+   text="Every enabled leaf of EXT1/2/4 (NEXT_BUFFER/READONLY_BUFFER) has allow_ext_opcodes (allow_buffer_opcodes) materialised true; no emission leaf, unsafe type-confusion rewrite, collapse step or header decodes to one of the five opcodes unless its flag is true; Default/new yield both flags false and only the two builder methods write them; the two CLI flags are forwarded in both modes.",
+   note="trusted: clap bool flags default to false", ref="4/C10"),
+ "C11": dict(cat="other", tech="structural premises P1-P5 on interpreted leaves + fixed arithmetic lemma",
+   text="P1 loop bound term = min + draw<(max-min) (or min), P2 one emit_and_process per counted iteration, P3 every feasible emission leaf (safe/unsafe) decodes to exactly one opcode, P4 net growth <= 1, P5 collapse tail <= items+marks+1; the totals follow by the lemma in DESIGN.md.",
+   note="the closing arithmetic lemma is pen-and-paper; choose_index range from C18", ref="4/C11"),
+ "C12": dict(cat="other", tech="table completeness + breadth-first witness search over the extracted transition relation",
+   text="Every standard opcode with proto<=P is listed in the protocol-P row; for every (P,k) a choice sequence from the empty stack reaches a state where can_emit(k) holds (witness in evidence); framed and unframed paths exist for P>=4. The existence of a witness seed in a fixed range is not decided (probabilistic).",
+   note="necessary condition only: precondition satisfiable on a reachable state", ref="4/C12"),
+})
+
 NA_DEFAULT = "check not built yet (build in progress; see DESIGN.md section 6 build order)"
 NA = {}
 
